@@ -10,6 +10,7 @@ import (
 	"net"
 	"sort"
 	"strconv"
+	"strings"
 	"sync"
 	"time"
 
@@ -23,23 +24,23 @@ import (
 // In-process clusters of real olric members on loopback, shared by the cluster-level subcommands.
 
 type ClusterOpts struct {
-	Members     int                      `json:"members"`
-	Replicas    int                      `json:"replicas"`
-	WQ          int                      `json:"wq"`
-	RQ          int                      `json:"rq"`
-	MCQ         int                      `json:"mcq"`
-	Partitions  uint64                   `json:"partitions"`
-	TableSize   uint64                   `json:"table"`
-	ReadRepair  bool                     `json:"readrepair"`
-	Async       bool                     `json:"async"`
-	DMaps       map[string]DMapOpts      `json:"dmaps"`
-	Default     *DMapOpts                `json:"default"`
-	EvictWorkers int64                   `json:"evict_workers"` // 0 = library default
-	JanitorMs   int                      `json:"janitor_ms"`    // CheckEmptyFragmentsInterval, 0 = 1h
-	CompactMs   int                      `json:"compact_ms"`    // TriggerCompactionInterval, 0 = 1h
-	PushMs      int                      `json:"push_ms"`       // RoutingTablePushInterval, 0 = default
-	FastGossip  bool                     `json:"fast_gossip"`
-	BalancerMs  int                      `json:"balancer_ms"` // TriggerBalancerInterval, 0 = default
+	Members      int                 `json:"members"`
+	Replicas     int                 `json:"replicas"`
+	WQ           int                 `json:"wq"`
+	RQ           int                 `json:"rq"`
+	MCQ          int                 `json:"mcq"`
+	Partitions   uint64              `json:"partitions"`
+	TableSize    uint64              `json:"table"`
+	ReadRepair   bool                `json:"readrepair"`
+	Async        bool                `json:"async"`
+	DMaps        map[string]DMapOpts `json:"dmaps"`
+	Default      *DMapOpts           `json:"default"`
+	EvictWorkers int64               `json:"evict_workers"` // 0 = library default
+	JanitorMs    int                 `json:"janitor_ms"`    // CheckEmptyFragmentsInterval, 0 = 1h
+	CompactMs    int                 `json:"compact_ms"`    // TriggerCompactionInterval, 0 = 1h
+	PushMs       int                 `json:"push_ms"`       // RoutingTablePushInterval, 0 = default
+	FastGossip   bool                `json:"fast_gossip"`
+	BalancerMs   int                 `json:"balancer_ms"` // TriggerBalancerInterval, 0 = default
 }
 
 type DMapOpts struct {
@@ -186,7 +187,21 @@ func max1(x int) int {
 }
 
 // AddMember starts one more member that joins the existing ones.
+// AddMember starts one more member. A port found free can be taken by another process before the member binds it
+// (many harness processes run side by side): that start is repeated with fresh ports.
 func (cl *Cluster) AddMember() (*Member, error) {
+	var m *Member
+	var err error
+	for attempt := 0; attempt < 4; attempt++ {
+		m, err = cl.addMemberOnce()
+		if err == nil || !strings.Contains(err.Error(), "address already in use") {
+			return m, err
+		}
+	}
+	return m, err
+}
+
+func (cl *Cluster) addMemberOnce() (*Member, error) {
 	c := cl.newConfig()
 	for _, m := range cl.Members {
 		if m.Alive {
